@@ -1995,18 +1995,27 @@ def c09(ctx):
                 for j in range(i):
                     pre.append(z3.Or(un_ids[i][0] != un_ids[j][0], un_ids[i][1] != un_ids[j][1]))   # map keys are distinct
             mint_id = mint_amt = None
-            if mint:
+            self_amt = None
+            if mint and mint != "self":
                 mint_id, c, v = rid("mint")
                 pre += c; vars_.update(v)
                 if mint == "open":
                     mint_amt = z3.Int("mint_amount")
                     pre += [mint_amt >= 0, mint_amt <= U128]; vars_["mint_amount"] = mint_amt
+            if mint == "self":
+                # the transaction mints the very rune it etches: not yet etched when the mint is
+                # processed, so the mint must have no effect (the stub pays out `self_amt` only if
+                # the rune entry has already been created, i.e. if the code reordered the steps)
+                self_amt = z3.Int("self_mint_amount")
+                pre += [self_amt >= 1, self_amt <= 2 ** 64]; vars_["self_mint_amount"] = self_amt
             et_id = None
             premine = 0
             if etched:
                 et_id, c, v = rid("etched")
                 pre += c + [et_id[0] >= 1]; vars_.update(v)
                 premine = z3.Int("premine"); pre += [premine >= 0, premine <= U128]; vars_["premine"] = premine
+            if mint == "self":
+                mint_id = et_id
             edicts = []
             for e in range(ne):
                 r = Struct([z3.Int("e%d_block" % e), z3.Int("e%d_tx" % e)])
@@ -2051,9 +2060,10 @@ def c09(ctx):
             exq.overrides = {
                 "Runestone::decipher": lambda ex, st_, args: _copy.deepcopy(artifact),
                 "RuneUpdater::<'_>::unallocated": lambda ex, st_, args: Enum("Result", 0, [Container("map", [Struct([_copy.deepcopy(i), Struct([b])]) for i, b in zip(un_ids, un_bals)])]),
-                "RuneUpdater::<'_>::mint": lambda ex, st_, args: Enum("Result", 0, [opt(Struct([mint_amt])) if mint_amt is not None else Enum("Option", 0, [])]),
+                "RuneUpdater::<'_>::mint": lambda ex, st_, args: Enum("Result", 0, [opt(Struct([mint_amt])) if mint_amt is not None else
+                                                                                  (opt(Struct([self_amt])) if (self_amt is not None and st_.keep[2][0]) else Enum("Option", 0, []))]),
                 "RuneUpdater::<'_>::etched": lambda ex, st_, args: Enum("Result", 0, [opt(Struct([_copy.deepcopy(et_id), Struct([0])])) if etched else Enum("Option", 0, [])]),
-                "RuneUpdater::<'_>::create_rune_entry": lambda ex, st_, args: Enum("Result", 0, [Struct([])]),
+                "RuneUpdater::<'_>::create_rune_entry": lambda ex, st_, args: (st_.keep[2].__setitem__(0, True), Enum("Result", 0, [Struct([])]))[1],
                 "BalanceTable::insert": ov_insert,
                 "encode_rune_balance": ov_encode,
                 "OutPoint as entry::Entry>::store": lambda ex, st_, args: Struct([args[0][1]]),     # keep the vout
@@ -2064,7 +2074,7 @@ def c09(ctx):
                 table = X.Ref([Struct([Container("vec", [])])], (), True)
                 updc = [Struct([Container("map", []), Enum("Option", 0, []), 840000, table, X.Opaque("stub")])]
                 st = X.State(); st.pc = list(pre)
-                st.keep = ([], updc)
+                st.keep = ([], updc, [False])
                 f = exq.find_fn("rune_updater_extract::_::index_runes")
                 res = exq.run(f, [X.Ref(updc, (), True), 1, X.Ref([tx]), Struct([X.Opaque("txid")])], st)
             finally:
@@ -2081,7 +2091,7 @@ def c09(ctx):
                 if r.value.variant != 0:
                     ob.reach(r.pc, "index_runes returns an error")
                     continue
-                inserted, updc2 = r.keep
+                inserted, updc2, _created = r.keep
                 burned_map = updc2[0][0]
                 refin = Struct([nout, pad(opret, 4, False), kind, nun, pad(un_ids, 3, zero), pad(un_bals, 3, 0),
                                 opt(mint_id), opt(mint_amt), opt(et_id), premine,
@@ -2133,12 +2143,13 @@ def c09(ctx):
 
     if ctx.tier == "quick":
         scen = [(0, 2, 1, 0, None, False, False), (1, 2, 2, 0, "open", False, False), (2, 2, 1, 1, None, False, False),
-                (2, 2, 1, 1, None, False, True), (2, 4, 1, 1, None, False, False), (2, 2, 1, 1, None, True, False), (2, 2, 2, 1, None, False, False)]
+                (2, 2, 1, 1, None, False, True), (2, 4, 1, 1, None, False, False), (2, 2, 1, 1, None, True, False), (2, 2, 2, 1, None, False, False),
+                (2, 2, 0, 0, "self", True, False)]
     else:
         scen = [(0, 1, 1, 0, None, False, False), (0, 3, 2, 0, None, False, False), (1, 2, 2, 0, "open", False, False), (1, 2, 1, 0, "closed", False, False),
                 (2, 2, 0, 0, "open", False, True), (2, 2, 1, 1, None, False, False), (2, 2, 1, 1, None, False, True), (2, 3, 1, 1, "open", False, False),
                 (2, 2, 1, 1, None, True, False), (2, 2, 2, 1, None, False, False), (2, 3, 2, 1, None, False, True), (2, 2, 1, 2, None, False, False),
-                (2, 2, 1, 2, None, True, True), (2, 3, 1, 2, "open", False, False), (2, 4, 1, 1, None, False, False), (2, 4, 1, 1, None, False, True)]
+                (2, 2, 1, 2, None, True, True), (2, 3, 1, 2, "open", False, False), (2, 4, 1, 1, None, False, False), (2, 4, 1, 1, None, False, True), (2, 2, 0, 0, "self", True, False), (2, 2, 1, 1, "self", True, False)]
     for kind, nout, nun, ne, mint, etched, pointer in scen:
         name = "c09_alloc_k%d_o%d_in%d_e%d%s%s%s" % (kind, nout, nun, ne, "_mint" + mint if mint else "", "_etch" if etched else "", "_ptr" if pointer else "")
         guarded(ctx, name,
@@ -2156,12 +2167,14 @@ def _rep_runes(ctx, v, kind, nout, nun, ne, mint, etched, pointer):
     opret = "".join(b(v.get("opret%d" % k, False)) for k in range(nout))
     ins = ",".join("%d:%d:%d" % (v["in%d_block" % i], v["in%d_tx" % i], v["in%d_bal" % i]) for i in range(nun))
     m = "-"
-    if mint:
+    if mint == "self":
+        m = "%d:%d:-" % (v["etched_block"], v["etched_tx"])
+    elif mint:
         m = "%d:%d:%s" % (v["mint_block"], v["mint_tx"], v["mint_amount"] if mint == "open" else "-")
     e = "%d:%d:%d" % (v["etched_block"], v["etched_tx"], v["premine"]) if etched else "-"
     eds = ",".join("%d:%d:%d:%d" % (v["e%d_block" % i], v["e%d_tx" % i], v["e%d_amount" % i], v["e%d_output" % i]) for i in range(ne))
     ptr = str(v["pointer"]) if pointer else "-"
-    spec = "|".join([str(kind), str(nout), opret, ins, m, e, eds, ptr])
+    spec = "|".join([str(kind), str(nout), opret, ins, m, e, eds, ptr, str(v["self_mint_amount"]) if mint == "self" else "-"])
     env = C.env({"VREPLAY_RUNES": spec, "CARGO_TARGET_DIR": os.path.join(C.BUILD, "t-liftk-replay")})
     p = subprocess.run(["cargo", "test", "--offline", "--lib", "vreplay_runes", "--", "--nocapture"], cwd=crate, env=env,
                        stdout=subprocess.PIPE, stderr=subprocess.STDOUT, universal_newlines=True, timeout=1800)
@@ -2174,7 +2187,158 @@ def _rep_runes(ctx, v, kind, nout, nun, ne, mint, etched, pointer):
     return None
 
 
-PROPS = {"C29": c29, "C33": c33, "C34": c34, "C31": c31, "C32": c32, "C25": c25, "C01": c01, "C09": c09}
+# =========================================================================== C10 (counter / ordering clauses)
+
+def c10(ctx):
+    from .mirmodels import Container
+    import itertools as _it, copy as _copy
+    U64 = 2 ** 64 - 1
+
+    def opt(v):
+        return Enum("Option", 1, [v]) if v is not None else Enum("Option", 0, [])
+
+    def make_body(present, pattern):
+        """pattern: None (no terms) or 6 booleans: cap, height.0, height.1, amount, offset.0, offset.1 present"""
+        def body(ob):
+            exq = ob.ex()
+            vars_, pre = {}, []
+            def sym(name, hi):
+                v = z3.Int(name); vars_[name] = v; pre.append(z3.And(v >= 0, v <= hi)); return v
+            idb, idt = sym("id_block", U64), sym("id_tx", 2 ** 32 - 1)
+            height = sym("height", 2 ** 32 - 1)
+            block, burned, div = sym("block", U64), sym("burned", U128), sym("divisibility", 255)
+            e0, e1 = sym("etching_lo", U128), sym("etching_hi", U128)
+            mints, number, premine = sym("mints", U128), sym("number", U64), sym("premine", U128)
+            rune, spacers, ts = sym("rune", U128), sym("spacers", 2 ** 32 - 1), sym("timestamp", U64)
+            turbo = z3.Bool("turbo"); vars_["turbo"] = turbo
+            terms = None
+            t = {}
+            if pattern is not None:
+                names = ["cap", "h0", "h1", "amount", "o0", "o1"]
+                his = [U128, U64, U64, U128, U64, U64]
+                for nm, hi, on in zip(names, his, pattern):
+                    t[nm] = sym("terms_" + nm, hi) if on else None
+                terms = Struct([opt(t["cap"]), Struct([opt(t["h0"]), opt(t["h1"])]), opt(t["amount"]), Struct([opt(t["o0"]), opt(t["o1"])])])
+            value = Struct([block, burned, div, Struct([e0, e1]), mints, number, premine, Struct([rune, spacers]), Enum("Option", 0, []), opt(terms), ts, turbo])
+            ob.vars = vars_
+            inserted = []
+            def ov_get(ex, st_, args):
+                if not present:
+                    return Enum("Result", 0, [Enum("Option", 0, [])])
+                return Enum("Result", 0, [opt(Struct([_copy.deepcopy(value)]))])
+            def ov_insert(ex, st_, args):
+                k = args[1]
+                while isinstance(k, X.Ref):
+                    k = k.get()
+                st_.keep.append((_copy.deepcopy(k), _copy.deepcopy(args[2])))
+                return Enum("Result", 0, [Struct([])])
+            exq.overrides = {"EntryTable::get": ov_get, "EntryTable::insert": ov_insert}
+            try:
+                table = X.Ref([Struct([Container("vec", [])])], (), True)
+                upd = X.Ref([Struct([height, table])], (), True)
+                st = X.State(); st.pc = list(pre); st.keep = []
+                res = exq.run("rune_mint_extract::_::mint", [upd, Struct([idb, idt])], st)
+            finally:
+                exq.overrides = {}
+            ob.paths += len(res)
+            # statement-level reference (exact arithmetic)
+            if pattern is None or not present:
+                mintable = z3.BoolVal(False)
+                cap = amount = z3.IntVal(0)
+            else:
+                conds = []
+                if t["o0"] is not None:
+                    conds.append(height >= block + t["o0"])
+                if t["h0"] is not None:
+                    conds.append(height >= t["h0"])
+                if t["o1"] is not None:
+                    conds.append(height < block + t["o1"])
+                if t["h1"] is not None:
+                    conds.append(height < t["h1"])
+                cap = t["cap"] if t["cap"] is not None else z3.IntVal(0)
+                amount = t["amount"] if t["amount"] is not None else z3.IntVal(0)
+                conds.append(mints < cap)
+                mintable = z3.And(*conds)
+            for r in res:
+                if r.kind != "return":
+                    ob.reach(r.pc, "RuneUpdater::mint panics: " + r.msg)
+                    continue
+                if r.value.variant != 0:
+                    ob.reach(r.pc, "RuneUpdater::mint returns an error")
+                    continue
+                got = r.value.fields[0]
+                ins = r.keep
+                if got.variant == 1:
+                    a = got.fields[0][0]
+                    okshape = len(ins) == 1
+                    conds = [mintable, X.zint(a) == amount]
+                    if okshape:
+                        k, v = ins[0]
+                        conds += [X.zint(k[0]) == idb, X.zint(k[1]) == idt]
+                        want = _copy.deepcopy(value)
+                        want[4] = mints + 1
+                        same = same_value(v, want)
+                        conds.append(same if same is not None else z3.BoolVal(False))
+                        conds.append(X.zint(v[4]) <= cap)          # the mint count never exceeds the cap
+                    ob.query(r.pc, z3.And(*conds) if okshape else False, ob.vars, "a mint is granted: terms must allow it, amount as set, entry stored once with mints+1 <= cap and nothing else changed")
+                else:
+                    ob.query(r.pc, z3.And(z3.Not(mintable), z3.BoolVal(len(ins) == 0)), ob.vars, "no mint: only when the rune is absent or its terms forbid it, and nothing is written")
+        return body
+
+    pats = [None, (1, 0, 0, 1, 0, 0), (1, 1, 1, 1, 1, 1), (0, 0, 0, 1, 0, 0), (1, 1, 0, 0, 0, 1), (1, 0, 1, 1, 1, 0)]
+    if ctx.tier == "thorough":
+        pats = [None] + [p for p in _it.product((0, 1), repeat=6)]
+    def rep(present, pattern):
+        def go(v):
+            from . import kani as K
+            crate = K.gen_lift()
+            def g(k):
+                return str(v[k]) if k in v else "-"
+            terms = ["noterms", "-", "-", "-", "-", "-"] if pattern is None else [g("terms_cap"), g("terms_h0"), g("terms_h1"), g("terms_amount"), g("terms_o0"), g("terms_o1")]
+            spec = " ".join(["1" if present else "0", g("id_block"), g("id_tx"), g("height"), g("block"), g("mints")] + terms)
+            env = C.env({"VREPLAY_MINT": spec, "CARGO_TARGET_DIR": os.path.join(C.BUILD, "t-liftk-replay")})
+            p = subprocess.run(["cargo", "test", "--offline", "--lib", "vreplay_mint", "--", "--nocapture"], cwd=crate, env=env,
+                               stdout=subprocess.PIPE, stderr=subprocess.STDOUT, universal_newlines=True, timeout=1800)
+            out = p.stdout
+            m = re.search(r"MINT result=(\S+) rows=(\d+) mints_after=(\S+) others_same=(\w+)", out)
+            if "test result: FAILED" in out:
+                return {"scenario": spec, "native": "panic"}
+            if not m:
+                raise RuntimeError("replay test did not run: " + out[-500:])
+            # exact reference
+            ok = present and pattern is not None
+            if ok:
+                h, blk, mints = v["height"], v["block"], v["mints"]
+                if "terms_o0" in v: ok = ok and h >= blk + v["terms_o0"]
+                if "terms_h0" in v: ok = ok and h >= v["terms_h0"]
+                if "terms_o1" in v: ok = ok and h < blk + v["terms_o1"]
+                if "terms_h1" in v: ok = ok and h < v["terms_h1"]
+                ok = ok and mints < v.get("terms_cap", 0)
+            want = "Some(%d)" % v.get("terms_amount", 0) if ok else "None"
+            want_mints = (v["mints"] + 1) if ok else (v["mints"] if present else None)
+            got_mints = None if m.group(3) == "None" else int(re.search(r"\d+", m.group(3)).group(0))
+            if m.group(1) != want or got_mints != want_mints or m.group(4) != "true":
+                return {"scenario": spec, "native": m.group(0), "expected": {"result": want, "mints_after": want_mints}}
+            return None
+        return go
+    guarded(ctx, "c10_mint_absent_rune", "a mint of a rune with no entry has no effect", "any id, any height", "lift-dev", make_body(False, None), rep(False, None))
+    for p_ in pats:
+        nm = "none" if p_ is None else "".join(map(str, p_))
+        guarded(ctx, "c10_mint_counter_terms_%s" % nm,
+                "RuneUpdater::mint grants a mint exactly when the stored terms allow it at this height and mints < cap, returns the set amount, stores the entry once with mints+1 (<= cap) and every other field unchanged; otherwise writes nothing",
+                "terms pattern %s (cap, start height, end height, amount, start offset, end offset present); every entry field, id and u32 height symbolic; the table is a stub returning this entry" % nm,
+                "lift-dev", make_body(True, p_), rep(True, p_))
+    # ordering clause: a transaction that mints the rune it etches gets nothing (C09 scenario)
+    os.environ["E2_ONLY_SAVE"] = os.environ.get("E2_ONLY", "")
+    if not os.environ.get("E2_ONLY"):
+        os.environ["E2_ONLY"] = "mintself"
+        try:
+            c09(ctx)
+        finally:
+            os.environ.pop("E2_ONLY", None)
+
+
+PROPS = {"C29": c29, "C33": c33, "C34": c34, "C31": c31, "C32": c32, "C25": c25, "C01": c01, "C09": c09, "C10": c10}
 
 
 def main():
